@@ -307,6 +307,14 @@ func (p *provRunner) Do(line string) {
 		w.stk.setParams(w.ctx, sp)
 	case "fail":
 		w.env.fail[op.s("call")] = int(op.i("nth"))
+	case "clearfail":
+		// an armed failure that was not reached is dropped; report whether it fired
+		fired := 1
+		if len(w.env.fail) > 0 {
+			fired = 0
+		}
+		w.env.fail = map[string]int{}
+		extra = append(extra, "fired", fired)
 	case "expire":
 		var cl ClientRec
 		if w.env.get(w.ctx, "client/"+op.s("client"), &cl) {
